@@ -39,7 +39,7 @@ def run(ctx):
     fams = [gen(ctx, "list", 3 if q else 4, 0),
             gen(ctx, "box", 0, 2),
             gen(ctx, "fbox", 0, 0),
-            gen(ctx, "sim", 4, 3, simulate=4000 if q else 60000)]
+            gen(ctx, "sim", 4, 3, simulate=4000 if q else 150000)]
     if not q:
         fams.append(gen(ctx, "box", 0, 3))
     summ = ctx.vh_json("fontquery", *fams, timeout=2400)
